@@ -78,7 +78,7 @@ _paraboloid_contract(-1)
 
 def _centre_contract(mirror, sigma):
     @contract('C06.sphere_centre.%s.%s' % ('mirror' if mirror else 'refract', 'plus_z' if sigma > 0 else 'minus_z'), FUNCS, ['C06'],
-              bundle=True, max_paths=64, numeric_only=(not mirror))
+              bundle=True, max_paths=64, sqrt_factor=True)
     def cen(c):
         # a point source at the centre of curvature of a sphere: rays meet the surface normally
         Rm = c.real('radius', 5.0, 60.0, positive=True)
@@ -186,3 +186,133 @@ def wavefront_zero(c):
     dist.x, dist.y = c.arr(0.0), c.arr(c.real('Py', -1, 1))
     w = W.Wavefront(opt, fields=[(0.0, 0.0)], wavelengths=[c.real('wl', 0.4, 0.7, positive=True)], num_rays=1, distribution=dist)
     c.ensure_eq('C06.wavefront.stigmatic_bundle_has_zero_opd', c.val(w.data[0][0][0]), 0)
+
+
+# ---- centre of curvature, refracting case, by composition of contracts -----------------------------------------------------
+# C02 proves for StandardGeometry that the reported distance ends on the quadric and the reported normal is the unit gradient
+# there; for a ray from the centre of a sphere that point is C + R d and the unit gradient is +-d (C06.centre.hit_at_distance_R
+# above).  With a geometry that returns exactly that (any geometry satisfying the C02 contract), the *real*
+# Surface._trace_real / RealRays.refract must leave the direction unchanged, for every index pair -- all inputs, no sampling.
+def _centre_refract_modular(sign):
+    from .c02 import _abstract_geometry
+
+    @contract('C06.sphere_centre.refract.by_contract.' + ('normal_along_ray' if sign > 0 else 'normal_against_ray'), FUNCS, ['C06'],
+              bundle=True, max_paths=64)
+    def cm(c):
+        surfs, mats = c.mod('optiland.surfaces'), c.mod('optiland.materials')
+        CoordinateSystem = c.mod('optiland.coordinate_system').CoordinateSystem
+        Rm = c.real('radius', 5.0, 60.0, positive=True)
+        n1, n2 = c.real('n1', 1.3, 4.0, positive=True), c.real('n2', 1.3, 4.0, positive=True)
+        d = c.unit3('L', 'M', 'N')
+        cs = CoordinateSystem()
+        geo = _abstract_geometry(c, cs, Rm, tuple(sign * x for x in d))
+        surf = surfs.Surface(geo, mats.IdealMaterial(n1, 0.0), mats.IdealMaterial(n2, 0.0))
+        Cz = c.real('centre_z', -60, 60)
+        rays = mk_rays(c, (0.0, 0.0, Cz), d)
+        surf.trace(rays)
+        P, D = pos_of(c, rays), dir_of(c, rays)
+        for i in range(3):
+            c.ensure_eq('C06.centre.by_contract.refracted_ray_undeviated', D[i], d[i])
+        c.ensure_eq('C06.centre.by_contract.path_is_index_times_radius', c.val(rays.opd), n1 * Rm)
+        c.ensure_eq('C06.centre.by_contract.hit_at_distance_R', norm2((P[0], P[1], P[2] - Cz)), Rm * Rm)
+    return cm
+
+
+_centre_refract_modular(+1)
+_centre_refract_modular(-1)
+
+
+def _aplanatic_modular(sigma, sign):
+    from .c02 import _abstract_geometry
+
+    @contract('C06.aplanatic.by_contract.%s.%s' % ('plus_z' if sigma > 0 else 'minus_z', 'n_out' if sign > 0 else 'n_in'), FUNCS, ['C06'],
+              bundle=True, max_paths=64, groebner_s=60, sqrt_factor=True, concolic=False)
+    def am(c):
+        """aplanatic points of a refracting sphere, by composition: the hit point is *any* point C + r u of the exit dome and the
+        normal there is +-u (the C02 contract of StandardGeometry); the real refraction must send the ray from the object point
+        C - sigma r (n2/n1) z along a line through C - sigma r (n1/n2) z"""
+        surfs, mats = c.mod('optiland.surfaces'), c.mod('optiland.materials')
+        CoordinateSystem = c.mod('optiland.coordinate_system').CoordinateSystem
+        r = c.real('radius', 5.0, 60.0, positive=True)
+        n1, n2 = c.real('n1', 1.3, 4.0, positive=True), c.real('n2', 1.3, 4.0, positive=True)
+        c.require(n1 > n2)
+        if c.mode == 'num':
+            u = c.unit3('ux', 'uy', 'uz')
+            if u[2] * sigma <= 0:
+                u = (u[0], u[1], -u[2])
+            c.require(abs(u[2]) > 1e-3)
+        else:
+            # exit dome: sigma u_z = w > 0 (a positive symbol, so sums of positive monomials are decided without forks)
+            w = c.real('uz_towards_exit', 0.01, 1.0, positive=True)
+            u = (c.real('ux', -1, 1), c.real('uy', -1, 1), sigma * w)
+            c.require(u[0] * u[0] + u[1] * u[1] + w * w == 1)
+        Cz = -sigma * r
+        O = (0, 0, Cz - sigma * r * n2 / n1)
+        I_ = (0, 0, Cz - sigma * r * n1 / n2)
+        P = (r * u[0], r * u[1], Cz + r * u[2])
+        v = tuple(P[i] - O[i] for i in range(3))
+        m = c.sqrt(norm2(v))
+        d = tuple(x / m for x in v)
+        geo = _abstract_geometry(c, CoordinateSystem(), m, tuple(sign * x for x in u))
+        surf = surfs.Surface(geo, mats.IdealMaterial(n1, 0.0), mats.IdealMaterial(n2, 0.0))
+        rays = mk_rays(c, O, d)
+        surf.trace(rays)
+        Q, D = pos_of(c, rays), dir_of(c, rays)
+        for i in range(3):
+            c.ensure_eq('C06.aplanatic.by_contract.hit_point_is_the_dome_point', Q[i], P[i])
+        _line_through(c, 'C06.aplanatic.by_contract.refracted_ray_line_through_image_point', Q, D, I_)
+        c.ensure_eq('C06.aplanatic.by_contract.unit_direction', norm2(D), 1)
+    return am
+
+
+for _s in (+1, -1):
+    for _g in (+1, -1):
+        _aplanatic_modular(_s, _g)
+
+
+def _hyperbolic_modular(sigma, sign):
+    from .c02 import _abstract_geometry
+
+    @contract('C06.plano_hyperbolic.by_contract.%s.%s' % ('plus_z' if sigma > 0 else 'minus_z', 'n_out' if sign > 0 else 'n_in'), FUNCS, ['C06'],
+              bundle=True, max_paths=64, groebner_s=60, sqrt_factor=True, concolic=False)
+    def hm(c):
+        """collimated light in glass (index n) leaving through a conic with k = -n^2, by composition: the hit point is *any*
+        point (x, y, z) of the vertex sheet of that conic, the normal there is +- its unit gradient (C02 contract of
+        StandardGeometry); the real refraction must send the ray through the paraxial focus R/(1 - n), with equal optical paths"""
+        surfs, mats = c.mod('optiland.surfaces'), c.mod('optiland.materials')
+        CoordinateSystem = c.mod('optiland.coordinate_system').CoordinateSystem
+        n = 1 + c.real('n_minus_1', 0.3, 3.0, positive=True)      # glass: n > 1 (written so that sums of positive terms are decided)
+        Rm = c.real('radius', 5.0, 60.0, positive=True)
+        R = -sigma * Rm
+        k = -n * n
+        z0 = -sigma * c.real('launch_distance', 1.0, 5.0, positive=True)
+        x, y = c.real('x', -2, 2), c.real('y', -2, 2)
+        if c.mode == 'num':
+            r2 = x * x + y * y
+            z = r2 / (R * (1 + math.sqrt(1 - (1 + k) * r2 / (R * R))))
+        else:
+            z = -sigma * c.real('sag_depth', 0.0, 1.0, nonneg=True)          # the vertex sheet: z has the sign of R
+            c.require(x * x + y * y + (1 + k) * z * z - 2 * R * z == 0)
+        grad = (2 * x, 2 * y, 2 * (1 + k) * z - 2 * R)
+        g = c.sqrt(norm2(grad))
+        nrm = tuple(sign * v / g for v in grad)
+        t = sigma * (z - z0)
+        c.require(t > 0)                                   # the rays are launched in front of the surface
+        geo = _abstract_geometry(c, CoordinateSystem(), t, nrm)
+        surf = surfs.Surface(geo, mats.IdealMaterial(n, 0.0), mats.IdealMaterial(1.0, 0.0))
+        rays = mk_rays(c, (x, y, z0), (0.0, 0.0, float(sigma)))
+        surf.trace(rays)
+        P, D = pos_of(c, rays), dir_of(c, rays)
+        zf = R / (1 - n)
+        for i, v in enumerate((x, y, z)):
+            c.ensure_eq('C06.hyperbolic.by_contract.hit_point_is_the_conic_point', P[i], v)
+        _line_through(c, 'C06.hyperbolic.by_contract.refracted_ray_through_the_focus', P, D, (0, 0, zf))
+        want = (zf * sigma) - n * sigma * z
+        c.ensure_eq('C06.hyperbolic.by_contract.distance_to_focus', norm2((x, y, z - zf)), want * want)
+        c.ensure_eq('C06.hyperbolic.by_contract.equal_optical_paths', c.val(rays.opd) + want, zf * sigma - n * sigma * z0)
+    return hm
+
+
+for _s in (+1, -1):
+    for _g in (+1, -1):
+        _hyperbolic_modular(_s, _g)
